@@ -31,7 +31,7 @@ type c19World struct {
 }
 
 type c19Op struct {
-	Kind string `json:"kind"` // up | resume
+	Kind string `json:"kind"` // up | resume | stall | unstall (channel goroutines held back: a slow consumer)
 	recvUpload
 	Round int      `json:"round,omitempty"`
 	Park  []string `json:"park,omitempty"` // yield points at which this upload parks
@@ -191,6 +191,7 @@ func (C19) Gen(rng *core.Rng, tier string, idx int) *core.Scenario {
 			late = 1 + rng.Intn(len(c.Tracks)-1)
 			lateRound = 3 + rng.Intn(nMedia-2)
 		}
+		stallUntil := -1
 		badAuth := -1
 		// (rounds 1 and 2 are left alone: a registered track that misses one of its first two segments crashes
 		// the channel goroutine even in a sequential run - C17's finding, it would only kill C19's processes)
@@ -297,6 +298,17 @@ func (C19) Gen(rng *core.Rng, tier string, idx int) *core.Scenario {
 					pos = pos + rng.Intn(len(steps)-pos+1)
 				}
 				steps = append(steps[:pos], append([]step{res}, steps[pos:]...)...)
+			}
+			// slow consumer: the channel goroutines are held back while one or two rounds are uploaded
+			// (only without a late joiner: a track that registers while reports are queued legitimately changes which
+			// numbers count as complete, i.e. the result then equals another sequential order than the sampled ones)
+			if round >= 3 && stallUntil < 0 && late < 0 && rng.Chance(0.3) {
+				steps = append([]step{{Kind: "stall"}}, steps...)
+				stallUntil = round + rng.Intn(2)
+			}
+			if round == stallUntil {
+				steps = append(steps, step{Kind: "unstall"})
+				stallUntil = -2 // once per channel
 			}
 			chanSteps[ci] = append(chanSteps[ci], steps...)
 		}
@@ -524,6 +536,7 @@ func (C19) Run(t *testing.T, sc *core.Scenario, res *core.Result) {
 	parkedNow := map[int]string{} // client -> point
 	overlapChannelMiss, parkedStream, parkedChannel, parkedLock := false, false, false, false
 	poolsNeutral := true
+	stalled := false
 	doStep := func(ci int) bool {
 		// no pooled object and no pool clock may carry one operation's history into the next one
 		ygDrainPools()
@@ -563,14 +576,30 @@ func (C19) Run(t *testing.T, sc *core.Scenario, res *core.Result) {
 				parkedStream = true
 			}
 		}
-		if _, q := recvQuiesce(); !q {
-			conc.Quiet = false
+		if stalled && runner.bgStall.load() == 0 {
+			stalled = false // lifted because an upload needed the channel goroutine
+		}
+		if !stalled {
+			if _, q := recvQuiesce(); !q {
+				conc.Quiet = false
+			}
 		}
 		return true
 	}
 	hung := false
 runLoop:
 	for oi, op := range ops {
+		switch op.Kind {
+		case "stall":
+			runner.StallBackground(true)
+			stalled = true
+			res.Count("fault.channel-goroutine-stalled")
+			continue
+		case "unstall":
+			runner.StallBackground(false)
+			stalled = false
+			continue
+		}
 		ci, ok := clientIdx[op.Ch+"\x00"+op.Tr]
 		if !ok {
 			continue
@@ -602,6 +631,8 @@ runLoop:
 			}
 		}
 	}
+	runner.StallBackground(false)
+	stalled = false
 	if !hung {
 		for ci := range clients { // nothing stays parked
 			for runner.InFlight(ci) {
